@@ -267,7 +267,7 @@ pub fn gen_script(rng: &mut Rng, flags: RrFlags) -> RrScript {
                 }
                 let n = rng.usize(1, 3).min(budget);
                 budget -= n;
-                let forge = if rng.chance(1, 6) { Some(rng.pick(&["0", "1", "2", "", "abc", "99"]).to_string()) } else { None };
+                let forge = if rng.chance(1, 6) { Some(rng.pick(&["0", "1", "2", "", "abc", "99", "CID=0", "Cid=1", "cID=2", "CID=1"]).to_string()) } else { None };
                 steps.push(RrStep::Request { r, n, forge });
             }
             3 => {
@@ -535,7 +535,17 @@ impl<'a> Run<'a> {
                         h.insert("x-extra".to_string(), format!("v{seq}"));
                     }
                     if let Some(f) = forge {
-                        h.insert("cid".to_string(), f.clone());
+                        // "KEY=value": a header whose name differs from the routing tag's only
+                        // in case (it is an ordinary header and has to survive as one)
+                        match f.split_once('=') {
+                            Some((k, v)) => {
+                                h.insert(k.to_string(), v.to_string());
+                                self.out.probe("header_named_like_the_routing_tag");
+                            }
+                            None => {
+                                h.insert("cid".to_string(), f.clone());
+                            }
+                        }
                         self.out.probe("forged_cid_request");
                     }
                     let label = req_label(*r, seq);
